@@ -4,6 +4,7 @@ from singlecellmultiomics.fragment import NlaIIIFragment, CHICFragment, Fragment
 from singlecellmultiomics.utils.sequtils import hamming_distance as hd_N   # the package's distance: N matches anything
 
 SAMPLES = ['lib_1', 'lib_2']
+CONTIGS = ['chr1', 'chr2']
 
 
 def umi_close(ua, ub, d):
@@ -16,8 +17,9 @@ def umi_close(ua, ub, d):
     return hd_N(ua, ub) <= d
 
 
-def nla_frag(mk, site, rev, clip, sample, umi, d, name='q', dup=False):
+def nla_frag(mk, site, rev, clip, sample, umi, d, name='q', dup=False, contig=CONTIG):
     r1, _ = nla_reads(mk, site, clip, rev, 'CATG')
+    r1.reference_name = contig
     r1.set_tag('SM', sample)
     r1.set_tag('RX', umi)
     r1.query_name = name
@@ -25,17 +27,18 @@ def nla_frag(mk, site, rev, clip, sample, umi, d, name='q', dup=False):
     return NlaIIIFragment([r1, None], umi_hamming_distance=d)
 
 
-def chic_frag(mk, P, rev, clip, sample, umi, d, radius):
+def chic_frag(mk, P, rev, clip, sample, umi, d, radius, contig=CONTIG):
     # molecule 5' end at P (see spec/c09.check_chic)
     n = 10
     r = chic_read(mk, P + clip, n, clip, False, True) if not rev else chic_read(mk, P - (n + clip) + 1, n, clip, True, True)
     r.set_tag('SM', sample)
     r.set_tag('RX', umi)
+    r.reference_name = contig
     return CHICFragment([r, None], umi_hamming_distance=d, assignment_radius=radius)
 
 
-def plain_frag(mk, start, length, rev, sample, umi, d, radius):
-    r = mk(query_name='q', reference_name=CONTIG, reference_start=start, cigartuples=[(0, length)], seq='A' * 1, qual='I' * 1,
+def plain_frag(mk, start, length, rev, sample, umi, d, radius, contig=CONTIG):
+    r = mk(query_name='q', reference_name=contig, reference_start=start, cigartuples=[(0, length)], seq='A' * 1, qual='I' * 1,
            is_reverse=rev, is_read1=True, tags={'SM': sample, 'RX': umi})
     return Fragment([r, None], umi_hamming_distance=d, assignment_radius=radius)
 
